@@ -41,6 +41,7 @@ class World:
         os.makedirs(self.ldir)
         self.clock = 1_500_000_000
         self.dir_mtime = {}
+        self.link_sub = rng.random() < 0.5
         self.k_model, self.k_lib, self.k_extra = 2, 3, None
         self.opts = {"library_folders": [self.ldir]}
         if rng.random() < 0.5:
@@ -100,7 +101,15 @@ class World:
         p = os.path.join(self.ldir, "sub", "Extra.mo")
         new = not os.path.exists(p)
         if new:
-            os.makedirs(os.path.dirname(p), exist_ok=True)
+            if self.link_sub:
+                # the sub-folder is a symbolic link to a directory elsewhere (the compiler follows such links)
+                real = os.path.join(self.root, "shared_sub")
+                os.makedirs(real, exist_ok=True)
+                if not os.path.lexists(os.path.join(self.ldir, "sub")):
+                    os.symlink(real, os.path.join(self.ldir, "sub"))
+                self.ctx.cover("library-sub-folder-is-a-symlink")
+            else:
+                os.makedirs(os.path.dirname(p), exist_ok=True)
             self.dir_mtime[self.ldir] = self.clock + 1     # the sub-folder is a new entry of the library folder
         with open(p, "w") as f:
             f.write("model Extra\n  Real q;\nequation\n  q = %d;\nend Extra;\n" % self.k_extra)
@@ -167,11 +176,38 @@ class World:
             self.opts[o] = not cur
             self.ops.append(["option-change", o, self.opts[o]])
         else:
-            self.version = "1.0.verif%d" % r.randint(1, 5) if r.random() < 0.7 else self.version
-            self.ops.append(["version-change", self.version])
+            old_version = self.version
+            while self.version == old_version:
+                self.version = r.choice(["1.0.verif%d" % r.randint(1, 5), "1.0.verif+%d.g%06x" % (r.randint(1, 40), r.randrange(16 ** 6)),
+                                         "1.0.verif+%d.g%06x" % (r.randint(1, 40), r.randrange(16 ** 6)), "0+untagged.%d.g%06x" % (r.randint(1, 90), r.randrange(16 ** 6))])
+            poisoned = False
+            if self.mode == "cache" and not self.dirty_since_transfer and r.random() < 0.7:
+                # the cache file as another build of pymoca would have written it (here: another value for p): it is
+                # tied to the version that wrote it, so after the version change it must not be used
+                poisoned = self.poison_cache()
+            self.ops.append(["version-change", self.version] + (["cache-written-by-a-different-build"] if poisoned else []))
         self.dirty_since_transfer = True
         self.ctx.cover("op:" + self.ops[-1][0])
         return None
+
+    def poison_cache(self):
+        import pickle
+        cf = os.path.join(self.mdir, "M.pymoca_cache")
+        try:
+            with open(cf, "rb") as f:
+                db = pickle.load(f)
+            hit = [d for d in db.get("parameters", []) if d.get("name") == "p" and isinstance(d.get("value"), (int, float))]
+            if not hit:
+                return False
+            hit[0]["value"] = 777.0
+            st = os.stat(cf)
+            with open(cf, "wb") as f:
+                pickle.dump(db, f)
+            os.utime(cf, (st.st_mtime, st.st_mtime))
+            self.ctx.cover("cache-poisoned-before-version-change")
+            return True
+        except Exception:
+            return False
 
     def op_transfer(self, mode):
         from pymoca.backends.casadi import api
@@ -186,6 +222,18 @@ class World:
             had_cache = os.path.exists(os.path.join(self.mdir, "M.pymoca_cache"))
             r_ = c19.run_worker(self.mdir, dict(self.opts, codegen=True), self.version)
             if "exception" in r_:
+                try:
+                    probe = os.path.join(self.root, "probe")
+                    shutil.rmtree(probe, ignore_errors=True)
+                    os.makedirs(probe)
+                    shutil.copy(os.path.join(self.mdir, "M.mo"), os.path.join(probe, "M.mo"))
+                    api.transfer_model(probe, "M", dict(self.opts))
+                except Exception as e2:
+                    if type(e2).__name__ == r_["exception"]:
+                        self.ctx.discard("sources-do-not-compile-under-these-options:" + r_["exception"])
+                        return "stop"
+                finally:
+                    shutil.rmtree(os.path.join(self.root, "probe"), ignore_errors=True)
                 return ("C20:codegen:transfer-raises:%s" % r_["exception"], "transfer_model(codegen) raised %s: %s" % (r_["exception"], r_.get("message")))
             sig = r_["signature"]
 
